@@ -98,6 +98,11 @@ func c11(g *Gen) {
 	n := g.N(40, 800)
 	nh := g.N(5, 24)
 	for i := 0; i < n; i++ {
+		if i%4 == 1 {
+			cwdPre, _ := os.Getwd()
+			prelookupCase(g, i, 1+g.R.Intn(3), "C11")
+			os.Chdir(cwdPre)
+		}
 		npk := 3 + g.R.Intn(4)
 		prog, cls := g.genProgram(true, npk, 1+g.R.Intn(2))
 		req := map[string]bool{}
